@@ -125,9 +125,11 @@ TEXTTYPES = {'INT': (195, 2, -32768, 65535), 'DINT': (196, 4, -2 ** 31, 2 ** 32 
 
 
 def gen_optext(rng):
-    name = ''.join(rng.choice(NAMECH) for _ in range(rng.choice([1, 2, 3, 5, 9, 20])))
-    if name[0].isdigit():
-        name = 'T' + name
+    def level():
+        nm = ''.join(rng.choice(NAMECH) for _ in range(rng.choice([1, 2, 3, 5, 9, 20])))
+        return 'T' + nm if nm[0].isdigit() else nm
+    # a tag may have several levels (Program:Main.Line.Motor): one symbolic segment per level
+    name = '.'.join(level() for _ in range(rng.choice([1, 1, 1, 2, 3, 4, 5])))
     e = rng.random()
     if e < 0.3:
         elem = None
@@ -208,7 +210,7 @@ def run(ctx):
             err = None
         except Exception as e:
             got, err = None, type(e).__name__
-        want = dict(path=[{'symbolic': name}] + ([{'element': elem[0]}] if elem else []))
+        want = dict(path=[{'symbolic': lv} for lv in name.split('.')] + ([{'element': elem[0]}] if elem else []))
         if elem and elem[1] is not None:
             want['elements'] = elem[1] - elem[0] + 1
         if off is not None:
@@ -230,7 +232,7 @@ def run(ctx):
     npath = 0
     for _ in range(400 if ctx.thorough else 120):
         if rng.random() < 0.5:
-            segs = [{'symbolic': ''.join(rng.choice(NAMECH[:52]) + rng.choice(NAMECH) for _ in range(rng.randrange(1, 6)))}]
+            segs = [{'symbolic': ''.join(rng.choice(NAMECH[:52]) + rng.choice(NAMECH) for _ in range(rng.randrange(1, 6)))} for _ in range(rng.choice([1, 1, 2, 3, 4]))]
         else:
             segs = [{'class': rng.choice([1, 2, 6, 0x6B, 0x1FF, 0xFFFF])}, {'instance': rng.choice([0, 1, 7, 300])}]
             if rng.random() < 0.7:
@@ -310,6 +312,36 @@ def run(ctx):
                 mev = [(me[1 + 2 * j], me[2 + 2 * j]) for j in range(me[0])]
                 if depth and mev != events:
                     dis(dict(part='pipeline schedule', depth=depth, multiple=multiple, impl=events[:30], model=mev[:30]))
+        # ---- the proxy layer on top of the connector: typed attribute reads and tag reads of differing types, one write, refused ones;
+        # every record (value, attribute, type, units) must be the one the un-bundled synchronous run yields
+        from cpppo.server.enip.get_attribute import proxy
+        attrs = [('@1/1/1', 'INT'), ('@1/1/7', 'SSTRING'), 'T[0-3]', ('@1/1/6', 'DINT', 'serial'), 'S[1-2]', 'B[0-3]', ('@1/1/4', ('USINT', 'USINT')),
+                 'T[6]', ('S[0]', 'INT', 'rpm'), ('@1/1/3', 'INT'), 'NoSuchTag', 'T[7-9]', ('@1/1/2', 'INT')]
+        base = None
+        for depth, multiple in [(0, 0), (2, 0), (0, 500), (2, 250), (3, 120), (1, 4000)]:
+            via = proxy(host='127.0.0.1', port=port, timeout=5, depth=depth, multiple=multiple)
+            recs, err = [], None
+            try:
+                with via:
+                    for val, (sts, (att, typ, uni)) in via.read_details(attrs):
+                        v = list(val) if hasattr(val, '__iter__') and not isinstance(val, (str, bytes)) else val
+                        recs.append((repr(v), repr(sts if not isinstance(sts, tuple) else (sts[0], list(sts[1]))), str(att), repr(typ), uni))
+            except Exception as e:
+                err = '%s: %s' % (type(e).__name__, str(e)[:100])
+            finally:
+                via.close_gateway()
+            nrun += 1
+            if base is None:
+                base = (recs, err)
+                if err or len(recs) != len(attrs):
+                    raise core.HarnessError('proxy baseline failed: %r %r' % (err, recs))
+            elif (recs, err) != base:
+                k = next((i for i, (a, b) in enumerate(zip(recs, base[0])) if a != b), min(len(recs), len(base[0])))
+                bad(dict(api='proxy.read_details', depth=depth, multiple=multiple, error=err, results=len(recs), first_difference_at=k,
+                         got=recs[k] if k < len(recs) else None, synchronous=base[0][k] if k < len(base[0]) else None),
+                    'proxy results differ between pipelining / bundling settings')
+            else:
+                nres += len(recs)
     finally:
         proc.terminate()
         try:
